@@ -1,14 +1,18 @@
-import Pocket.Lemmas.Find
+import Pocket.Lemmas.FindComplete
 import Pocket.Thm.C06
+import Pocket.Thm.C09
 /-
 C05 — queries return only retrievable, matching, screened-in events, newest first, without
 duplicates, at most `limit`; the redacted flag and the scraping refusal follow the stated rules.
 
 Proved for every store state, every filter, every screening function and **every index plan**
 (the seven plans of `find_events`, the moving `since`, the early exits): the *soundness* half of
-"exactly the matching events".  The *completeness* half (no qualifying event is missed; under a
-limit the newest are kept) is decided by the correspondence check against the abstract
-specification's `ValidAnswer` after every step of every history; it is not claimed as a theorem.
+"exactly the matching events".  The *completeness* half is proved for the case in
+which the limit is not binding (`findEvents_exact`: in every reachable state, for every NIP-01
+filter, through whichever plan, the answer is **exactly** the retrievable matching screened-in
+events).  Under a binding limit, "the newest `limit` are kept" (with the moving `since`) is decided
+by the correspondence check against the abstract specification's `ValidAnswer` after every step of
+every history, and is not claimed as a theorem.
 -/
 namespace Pocket.C05
 open Pocket
@@ -82,5 +86,36 @@ theorem findEvents_total (live : List SEv) (f : FilterRec) (allow : Bool) (l sec
   split
   · exact Or.inl ⟨_, _, rfl⟩
   · exact Or.inr rfl
+
+/-- **exactly the matching events** (limit not binding): in every reachable state, for every filter
+whose tag constraints are named by single letters, every screening function and whichever index
+plan serves the filter, an event is returned if and only if it is currently retrievable, matches
+the filter and passes the screen -/
+theorem findEvents_exact (ops : List Op) (f : FilterRec) (hsl : SingleLetter f) (allow : Bool)
+    (l secs now : Nat) (scr : EventRec → Screen) (out : List SEv) (red : Bool)
+    (hnl : (run {} ops).db.live.length < f.limit)
+    (h : findEvents (run {} ops).db.live f allow l secs now scr = .ok out red) (x : SEv) :
+    x ∈ out ↔ (x ∈ (run {} ops).db.live ∧ eventMatches f x.e = true ∧ scr x.e = .match) := by
+  constructor
+  · intro hx; exact (findEvents_sound _ f allow l secs now scr out red h).1 x hx
+  · intro ⟨hx, hm, hs⟩
+    exact findEvents_complete _ f allow l secs now scr out red (Inv_run {} ops Inv_init).liveIds
+      (C09.one_per_address ops) hnl hsl h x hx hm hs
+
+/-- hence the answer does not depend on which index serves the filter: two filters that select
+different plans but match the same events (e.g. one naming an author, one not) return the same
+set; stated here as: the answer is determined by the match predicate alone -/
+theorem plan_independent (ops : List Op) (f g : FilterRec) (hf : SingleLetter f) (hg : SingleLetter g)
+    (allow : Bool) (l secs now : Nat) (scr : EventRec → Screen) (o1 o2 : List SEv) (r1 r2 : Bool)
+    (hsame : ∀ x ∈ (run {} ops).db.live, eventMatches f x.e = eventMatches g x.e)
+    (h1 : (run {} ops).db.live.length < f.limit) (h2 : (run {} ops).db.live.length < g.limit)
+    (e1 : findEvents (run {} ops).db.live f allow l secs now scr = .ok o1 r1)
+    (e2 : findEvents (run {} ops).db.live g allow l secs now scr = .ok o2 r2) (x : SEv) :
+    x ∈ o1 ↔ x ∈ o2 := by
+  rw [findEvents_exact ops f hf allow l secs now scr o1 r1 h1 e1 x,
+    findEvents_exact ops g hg allow l secs now scr o2 r2 h2 e2 x]
+  constructor
+  · intro ⟨hx, hm, hs⟩; exact ⟨hx, by rw [← hsame x hx]; exact hm, hs⟩
+  · intro ⟨hx, hm, hs⟩; exact ⟨hx, by rw [hsame x hx]; exact hm, hs⟩
 
 end Pocket.C05
